@@ -6,7 +6,7 @@
 use std::{path::Path, sync::Arc};
 
 use dashmap::{DashMap, Entry};
-use fjall::Keyspace;
+use fjall::{Keyspace, Readable};
 use qbice_serialize::{
     Decoder, Encode, Encoder, Plugin, PostcardDecoder, PostcardEncoder,
 };
@@ -400,7 +400,9 @@ impl KvDatabase for Fjall {
         let mut buffer = Vec::new();
         self.0.encode_wide_column_key::<W, C>(key, &mut buffer);
 
-        match keyspace.get(&buffer) {
+        // Read through a snapshot: `Keyspace::get` reads at `SeqNo::MAX` and can
+        // therefore observe a write batch that is still being applied.
+        match self.0.db.snapshot().get(&keyspace, &buffer) {
             Ok(Some(value_bytes)) => {
                 let mut decoder = PostcardDecoder::new(std::io::Cursor::new(
                     value_bytes.as_ref(),
@@ -429,8 +431,10 @@ impl KvDatabase for Fjall {
         let mut prefix_buffer = Vec::new();
         self.0.encode_value_length_prefixed(key, &mut prefix_buffer);
 
-        // Use prefix iterator
-        let iter = keyspace.prefix(prefix_buffer.as_slice());
+        // Use prefix iterator over a snapshot, so that a write batch that is
+        // still being applied is either fully visible or not at all.
+        let iter =
+            self.0.db.snapshot().prefix(&keyspace, prefix_buffer.as_slice());
 
         ScanMemberIterator {
             iter,
